@@ -105,6 +105,8 @@ type Gen struct {
 	cellT        map[string]types.Type   // Go type held by a cell
 	cellPaths    map[string][][]pathStep // per struct cell: full field paths written in the loop being analysed
 	initOnlyUsed map[string]bool         // init-only fields whose frame was assumed across a coarse call
+	outerLookup  func(string, *State) (Val, bool)
+	freeVarNames map[string]bool         // names of captured variables of the closure being inlined
 	lookupPos    token.Pos // source position contract names are resolved at (scoping)
 }
 
